@@ -1,4 +1,4 @@
-use crate::{constraints::props::{Propagate, Prune}, variables::{VarId, Val}, variables::views::{Context, View}};
+use crate::{constraints::props::{Propagate, Prune}, variables::VarId, variables::views::{Context, View}};
 
 /// Global minimum constraint: `result = min(vars...)`.
 /// This constraint enforces that the result variable equals the minimum value among all input variables.
@@ -125,20 +125,10 @@ impl Prune for Min {
                 
                 // The result can't be larger than this variable's maximum
                 // (since it's the only one that can be minimum)
-                let new_result_max = if var_max < next_min { var_max } else { 
-                    // Take the minimum of var_max and (next_min - 1) if applicable
-                    match (var_max, next_min) {
-                        (Val::ValI(max_i), Val::ValI(next_i)) => {
-                            Val::ValI(if max_i < next_i - 1 { max_i } else { next_i - 1 })
-                        },
-                        (Val::ValF(max_f), Val::ValF(next_f)) => {
-                            // For floats, we can use a very small epsilon
-                            let epsilon = f64::EPSILON;
-                            Val::ValF(if max_f < next_f - epsilon { max_f } else { next_f - epsilon })
-                        },
-                        _ => var_max, // Mixed types - keep current max
-                    }
-                };
+                // Nothing tighter is implied: the other variables may still be the
+                // minimum for larger values of the result, so `next_min` gives no bound.
+                let _ = next_min;
+                let new_result_max = var_max;
                 
                 let _max = self.result.try_set_max(new_result_max, ctx)?;
             }
